@@ -1458,6 +1458,7 @@ theorem mul_ct_contract_discharged {env : Env} (he : EnvOK env) {N : Nat} (hN : 
     (hadm : ∀ T0 T1 T2, Core.tensorApply false mk.big N env.base2k (max a.g.size b.g.size) q.cnv env.base2k
         (effCols env.base2k a.md.effK a.g) a.md.effK (effCols env.base2k b.md.effK b.g) b.md.effK
         (zeroC N (tensorCols a.g) (max a.g.size b.g.size)) = some [T0, T1, T2] →
+      TensorCol N (max a.g.size b.g.size) (2 ^ (env.base2k - 1)) T0 → TensorCol N (max a.g.size b.g.size) (2 ^ (env.base2k - 1)) T2 →
       RelinAdm mk.big N env.base2k (max a.g.size b.g.size) mk.tsk s EL KL Hp Gmax Dmax T0 T2) :
     MulAdm env N 1 s (mulCtU N env.base2k (divCeil b.md.effK env.base2k) (max a.g.size b.g.size) dst.g.size (s.getD 0 [])
         (relinU env.base2k dst.g.size mk.tsk.size s Gmax Dmax) : Int)
@@ -1473,7 +1474,7 @@ example (big : Bool) : ∃ c', dMulInto env4 2 ⟨big, zk43⟩ xProd xA xTwo = .
   obtain ⟨c', h, _, _, hd, _⟩ := mul_ct_contract_discharged (env := env4) env4_ok (N := 2) (by norm_num) (mk := ⟨big, zk43⟩) (dst := xProd)
     (a := xA) (b := xTwo) (Hd := 908) ⟨by decide, rfl, rfl, by decide⟩ xA_ok xTwo_ok (m := ⟨⟨0, 0⟩, 1⟩) (by decide) hq (by decide) (roomT big)
     (s := [[1, 1]]) (by simp) (EL := zkEL) (KL := fun _ _ => [0, 0]) (Hp := 0)
-    (fun T0 T1 T2 ht => by
+    (fun T0 T1 T2 ht _ _ => by
       have ht' : Core.tensorApply false big 2 4 3 12 4 (effCols 4 xA.md.effK xA.g) xA.md.effK (effCols 4 xTwo.md.effK xTwo.g)
           xTwo.md.effK (zeroC 2 (tensorCols xA.g) 3) = some [T0, T1, T2] := ht
       rw [hT] at ht'
@@ -1483,6 +1484,84 @@ example (big : Bool) : ∃ c', dMulInto env4 2 ⟨big, zk43⟩ xProd xA xTwo = .
       injection ht' with h2 _
       subst h0; subst h2
       exact zk43_adm big)
+  exact ⟨c', h, hd⟩
+
+/-- **`ckks_mul_into` (rank 1), numeric form for tensor keys with `dsize = 1`**: C03's data-dependent hypotheses (product accumulators,
+gadget noise, dropped limbs) are derived from digit bounds (`KsNum.prodOf_bound_d1`, `gadgetBound_d1`, `dropBound_d1`); what is left is the
+key relation with `‖EL‖∞ ≤ Emax`, the key's digits within `Kb`, the covered regimes and two numeric head-room inequalities -/
+theorem mul_ct_numeric {env : Env} (he : EnvOK env) {N : Nat} (hN : 0 < N) {mk : MulKey} {dst a b : DCt} {Hd : Int}
+    (hd : GB N env.base2k 1 Hd dst.g) (ha : DOK env N 1 a) (hb : DOK env N 1 b) {m : Ct}
+    (hm : mulInto env dst.ct a.ct b.ct = .ok m) {q : MulP} (hq : mulCtParams env dst.ct a.ct b.ct = .ok q)
+    (hhi : (Core.cnvOffsetSplit env.base2k q.cnv).1 ≤ divCeil a.md.effK env.base2k + divCeil b.md.effK env.base2k - 1)
+    (hroom : 2 ^ env.base2k * (4 * (divCeil b.md.effK env.base2k : Int) * N * 2 ^ env.base2k) + 8 ≤ 2 ^ (KsDec.bitsOf mk.big - 2))
+    {s : List Poly} {EL KL : ℕ → ℕ → Poly} {Kb Emax : Int}
+    (hgb : mk.tsk.base2k = env.base2k) (hgn : mk.tsk.n = N) (hci : mk.tsk.colsIn = 1) (hco : mk.tsk.colsOut = 2) (hd1 : mk.tsk.dsize = 1)
+    (hM : ∀ j q, (mk.tsk.toPMat.entry j q).length = N) (hS : mk.tsk.dnum ≤ mk.tsk.size)
+    (hcov1 : max a.g.size b.g.size ≤ mk.tsk.size) (hcov2 : max a.g.size b.g.size ≤ mk.tsk.dnum)
+    (hs : s ≠ []) (hs1 : (s.getD 0 []).length = N) (hEL : ∀ i r, (EL i r).length = N) (hKL : ∀ i r, (KL i r).length = N)
+    (hkey : ∀ i, i < 1 → ∀ r, r < mk.tsk.dnum →
+      Gadget.val (Ks.radix N env.base2k) mk.tsk.size (Ks.keyPhase N s mk.tsk.toPMat i r) =
+        Ks.ι N (([Hal.negMul (s.getD 0 []) (s.getD 0 [])] : List Poly).getD i []) * Ks.radix N env.base2k ^ (mk.tsk.size - (r + 1) * mk.tsk.dsize)
+          + Ks.ι N (EL i r) + Ks.radix N env.base2k ^ mk.tsk.size * Ks.ι N (KL i r))
+    (hK0 : 0 ≤ Kb) (hK : ∀ j q, ∀ x ∈ mk.tsk.toPMat.entry j q, |x| ≤ Kb) (hE0 : 0 ≤ Emax) (hE : ∀ i r, Hal.normInf (EL i r) ≤ Emax)
+    (hroomK : ((1 * mk.tsk.dnum : Nat) : Int) * (N * 2 ^ (env.base2k - 1) * Kb) + 3 * 2 ^ (env.base2k - 1) + 8 ≤ 2 ^ (KsDec.bitsOf mk.big - 2)) :
+    MulAdm env N 1 s (mulCtU N env.base2k (divCeil b.md.effK env.base2k) (max a.g.size b.g.size) dst.g.size (s.getD 0 [])
+        (relinU env.base2k dst.g.size mk.tsk.size s ((1 : Nat) * ((mk.tsk.dnum : Nat) * (N * 2 ^ (env.base2k - 1) * Emax))) 0) : Int)
+      dst a b (dMulInto env N mk dst a b) q :=
+  mulAdm_numeric he hN hd ha hb hm hq hhi hroom hgb hgn hci hco hd1 hM hS hcov1 hcov2 hs hs1 hEL hKL hkey hK0 hK hE0 hE hroomK
+
+/-- the noise lists of `zk43` as a key for `1 + X`, cut to the rows the key has -/
+def zkEL' : ℕ → ℕ → Poly := fun i r => if i < 1 ∧ r < 3 then zkEL i r else [0, 0]
+
+example (big : Bool) : ∃ c', dMulInto env4 2 ⟨big, zk43⟩ xProd xA xTwo = .ok c' ∧ DOK env4 2 1 c' := by
+  have hq : mulCtParams env4 xProd.ct xA.ct xTwo.ct = .ok ⟨0, 0, 12⟩ := by decide
+  have hMl := Ks.entry_length zk43.toPMat 2 rfl (by decide)
+  obtain ⟨c', h, _, _, hd, _⟩ := mul_ct_numeric (env := env4) env4_ok (N := 2) (by norm_num) (mk := ⟨big, zk43⟩) (dst := xProd)
+    (a := xA) (b := xTwo) (Hd := 908) ⟨by decide, rfl, rfl, by decide⟩ xA_ok xTwo_ok (m := ⟨⟨0, 0⟩, 1⟩) (by decide) hq (by decide) (roomT big)
+    (s := [[1, 1]]) (EL := zkEL') (KL := fun _ _ => [0, 0]) (Kb := 0) (Emax := 512) rfl rfl rfl rfl rfl hMl (show (3 : Nat) ≤ 3 by decide) (show max xA.g.size xTwo.g.size ≤ 3 by decide)
+    (show max xA.g.size xTwo.g.size ≤ 3 by decide) (by simp) rfl
+    (by
+      intro i r
+      unfold zkEL'
+      split
+      · exact Ks.keyErrL_length 2 4 _ zk43.toKey _ i r (by decide) hMl (fun _ => rfl)
+      · rfl)
+    (fun _ _ => rfl)
+    (by
+      intro i hi r hr
+      have hi0 : i = 0 := by omega
+      subst hi0
+      have hr3 : r < 3 := hr
+      have : zkEL' 0 r = zkEL 0 r := by unfold zkEL'; rw [if_pos ⟨by omega, hr3⟩]
+      rw [this]
+      exact (zk43_adm big).hkey 0 (by omega) r hr)
+    (le_refl _)
+    (by
+      intro j q x hx
+      have hz : zk43.toPMat.entry j q = [0, 0] ∨ zk43.toPMat.entry j q = Hal.zeroP 2 := by
+        unfold Hal.PMat.entry Hal.limbOr0
+        rcases KsNum.getD_cases (((zk43.toPMat.data.getD j []).getD (q % zk43.toPMat.colsOut) [])) (q / zk43.toPMat.colsOut) (Hal.zeroP 2) with h | h
+        · right; exact h
+        · left
+          rcases KsNum.getD_cases (zk43.toPMat.data.getD j []) (q % zk43.toPMat.colsOut) [] with h2 | h2
+          · rw [h2] at h; cases h
+          · rcases KsNum.getD_cases zk43.toPMat.data j [] with h3 | h3
+            · rw [h3] at h2; cases h2
+            · have : ∀ c ∈ zk43.toPMat.data, ∀ col ∈ c, ∀ l ∈ col, l = [0, 0] := by decide
+              exact this _ h3 _ h2 _ h
+      rcases hz with h | h <;> rw [h] at hx <;> (simp [Hal.zeroP] at hx; rcases hx with rfl | rfl <;> simp))
+    (by norm_num)
+    (by
+      intro i r
+      unfold zkEL'
+      split
+      · next h =>
+        obtain ⟨h1, h2⟩ := h
+        have hi0 : i = 0 := by omega
+        subst hi0
+        interval_cases r <;> decide
+      · decide)
+    (by cases big <;> (show ((1 * 3 : Nat) : Int) * (((2 : Nat) : Int) * 2 ^ (4 - 1) * 0) + 3 * 2 ^ (4 - 1) + 8 ≤ _; norm_num [KsDec.bitsOf]))
   exact ⟨c', h, hd⟩
 
 /-- **`ckks_square_into` (rank 1): the product contract discharged** (C05 `tensorSquare_eq_tensorApply`: squaring runs the data path of
@@ -1496,6 +1575,7 @@ theorem square_contract_discharged {env : Env} (he : EnvOK env) {N : Nat} (hN : 
     (hadm : ∀ T0 T1 T2, Core.tensorApply false mk.big N env.base2k (max a.g.size a.g.size) q.cnv env.base2k
         (effCols env.base2k a.md.effK a.g) a.md.effK (effCols env.base2k a.md.effK a.g) a.md.effK
         (zeroC N (tensorCols a.g) (max a.g.size a.g.size)) = some [T0, T1, T2] →
+      TensorCol N (max a.g.size a.g.size) (2 ^ (env.base2k - 1)) T0 → TensorCol N (max a.g.size a.g.size) (2 ^ (env.base2k - 1)) T2 →
       RelinAdm mk.big N env.base2k (max a.g.size a.g.size) mk.tsk s EL KL Hp Gmax Dmax T0 T2) :
     MulAdm env N 1 s (mulCtU N env.base2k (divCeil a.md.effK env.base2k) (max a.g.size a.g.size) dst.g.size (s.getD 0 [])
         (relinU env.base2k dst.g.size mk.tsk.size s Gmax Dmax) : Int)
@@ -1544,7 +1624,7 @@ example (big : Bool) : ∃ c', dSquareInto env4 2 ⟨big, zk43⟩ xD xA = .ok c'
   obtain ⟨c', h, _, _, hd, _⟩ := square_contract_discharged (env := env4) env4_ok (N := 2) (by norm_num) (mk := ⟨big, zk43⟩) (dst := xD)
     (a := xA) xD_ok xA_ok (m := ⟨⟨4, 4⟩, 2⟩) (by decide) hq (by decide) (roomSq big)
     (s := [[1, 1]]) (by simp) (EL := zkEL) (KL := fun _ _ => [0, 0]) (Hp := 0)
-    (fun T0 T1 T2 ht => by
+    (fun T0 T1 T2 ht _ _ => by
       have ht' : Core.tensorApply false big 2 4 3 12 4 (effCols 4 xA.md.effK xA.g) xA.md.effK (effCols 4 xA.md.effK xA.g)
           xA.md.effK (zeroC 2 (tensorCols xA.g) 3) = some [T0, T1, T2] := ht
       rw [hT] at ht'
